@@ -12,7 +12,11 @@ This private submodule is *not* intended for importation by downstream callers.
 '''
 
 # ....................{ IMPORTS                            }....................
-from beartype.roar import BeartypeConfShellVarException
+from beartype.roar import (
+    BeartypeConfParamException,
+    BeartypeConfShellVarException,
+)
+from beartype._cave._cavemap import NoneTypeOr
 from beartype.roar._roarwarn import BeartypeConfShellVarWarning
 from beartype._data.func.datafuncarg import ARG_VALUE_UNPASSED
 from beartype._data.typing.datatyping import (
@@ -72,6 +76,22 @@ def get_is_color(is_color: BoolTristateUnpassable) -> BoolTristate:  # pyright: 
     # String value of the external shell environment variable
     # "${BEARTYPE_IS_COLOR}" globally overriding the passed "is_color" parameter
     # if the caller set this environment variable *OR* "None" otherwise.
+    # If the caller explicitly passed an invalid value for this parameter, raise
+    # an exception *BEFORE* possibly overriding this parameter by this shell
+    # environment variable below. Deferring this validation to later would
+    # silently accept that invalid value whenever this variable is set.
+    if not (
+        is_color == ARG_VALUE_UNPASSED or
+        isinstance(is_color, NoneTypeOr[bool])
+    ):
+        raise BeartypeConfParamException(
+            f'Beartype configuration parameter "is_color" '
+            f'value {repr(is_color)} not tri-state boolean '
+            f'(i.e., "True", "False", or "None").'
+        )
+    # Else, the caller either did not pass this parameter *OR* passed a valid
+    # value for this parameter.
+
     is_color_shell_var_value = get_shell_var_value_or_none(
         SHELL_VAR_CONF_IS_COLOR_NAME)
 
